@@ -346,3 +346,144 @@ Example clean_windows_idempotent_example :
   clean W [67;58;47;97;47;46;46;47;98;47]%N = [67;58;92;98]%N
   /\ clean W [67;58;92;98]%N = [67;58;92;98]%N.
 Proof. vm_compute. split; reflexivity. Qed.
+
+(* ================================================================================== *)
+(* Split / Dir / Base                                                                 *)
+(* ================================================================================== *)
+Section Cut.
+  Variable os : ostype.
+  Notation sepO := (is_sep os).
+
+  (* cutting after the last separator *)
+  Definition lastwO (p : str) : str := rev (tw sepO (rev p)).
+  Definition initwO (p : str) : str := rev (dw sepO (rev p)).
+
+  Lemma initw_lastwO p : initwO p ++ lastwO p = p.
+  Proof. unfold initwO, lastwO. rewrite <- rev_app_distr, tw_dw, rev_involutive. reflexivity. Qed.
+
+  Lemma lastw_sepfreeO p : sepfreeO os (lastwO p).
+  Proof. intros x Hx. unfold lastwO in Hx. eapply tw_none. apply in_rev. exact Hx. Qed.
+
+  Lemma initw_shapeO p : initwO p = [] \/ exists a s, initwO p = a ++ [s] /\ sepO s = true.
+  Proof.
+    unfold initwO. pose proof (dw_at_sep sepO (rev p)) as H.
+    destruct (dw sepO (rev p)) as [|c r]; [left; reflexivity|right].
+    cbn [at_sep] in H. exists (rev r), c. split; [reflexivity|exact H].
+  Qed.
+
+  Lemma last_sep_cut_ge (p : str) lo : forall i1, lo <= i1 -> lo <= last_sep_cut os p lo i1.
+  Proof.
+    induction i1 as [|i IH]; intros H; cbn [last_sep_cut]; [lia|].
+    destruct (Nat.leb lo i) eqn:E; cbn [andb]; [|lia].
+    apply Nat.leb_le in E. destruct (negb (sepO (nthb p i))); [apply IH; exact E|lia].
+  Qed.
+
+  (* the index loop of Split/Dir/Base, started at the end, stopped by the volume *)
+  Lemma cut_vol (vol rest : str) :
+    last_sep_cut os (vol ++ rest) (length vol) (length (vol ++ rest)) = length vol + length (initwO rest).
+  Proof.
+    set (p := vol ++ rest). set (lo := length vol).
+    assert (Hlen : length p = lo + length (initwO rest) + length (lastwO rest)).
+    { unfold p, lo. rewrite app_length. rewrite <- (initw_lastwO rest) at 1. rewrite app_length. lia. }
+    assert (Hp : p = (vol ++ initwO rest) ++ lastwO rest).
+    { unfold p. rewrite <- app_assoc, initw_lastwO. reflexivity. }
+    destruct (@last_sep_cut_spec os p lo (length p) (le_n _)) as (Hc & Hall & Hend).
+    pose proof (@last_sep_cut_ge p lo (length p) ltac:(lia)) as Hge.
+    set (cut := last_sep_cut os p lo (length p)) in *.
+    destruct (Nat.lt_trichotomy cut (lo + length (initwO rest))) as [Hlt|[Heq|Hgt]]; [exfalso|exact Heq|exfalso].
+    - destruct (initw_shapeO rest) as [E|(a & s & E & Hs)]; [rewrite E in Hlt; cbn [length] in Hlt; lia|].
+      rewrite E, app_length in Hlt, Hlen. cbn [length] in Hlt, Hlen.
+      assert (H : sepO (nthb p (lo + length a)) = false) by (apply Hall; lia).
+      rewrite Hp, E in H. rewrite <- !app_assoc in H. rewrite app_assoc in H.
+      replace (lo + length a) with (length (vol ++ a)) in H by (rewrite app_length; reflexivity).
+      cbn [app] in H. rewrite nthb_app0 in H. congruence.
+    - destruct Hend as [H0|[H0|Hs]]; try lia.
+      replace (cut - 1) with (length (vol ++ initwO rest) + (cut - 1 - (lo + length (initwO rest)))) in Hs
+        by (rewrite app_length; fold lo; lia).
+      rewrite Hp, nthb_app_at in Hs. rewrite (@lastw_sepfreeO rest) in Hs; [discriminate|]. apply nth_In. lia.
+  Qed.
+End Cut.
+
+Lemma cut_windows (p : str) :
+  last_sep_cut W p (volume_name_len W p) (length p)
+  = volume_name_len W p + length (initwO W (skipn (volume_name_len W p) p)).
+Proof.
+  set (v := volume_name_len W p). pose proof (volume_name_len_le W p) as Hle. fold v in Hle.
+  assert (Hl : length (firstn v p) = v) by (rewrite firstn_length; lia).
+  pose proof (@cut_vol W (firstn v p) (skipn v p)) as H. rewrite firstn_skipn, Hl in H. exact H.
+Qed.
+
+Lemma firstn_initw os (r : str) : firstn (length (initwO os r)) r = initwO os r.
+Proof. rewrite <- (initw_lastwO os r) at 2. apply firstn_app_at. Qed.
+
+Lemma skipn_initw os (r : str) : skipn (length (initwO os r)) r = lastwO os r.
+Proof. rewrite <- (initw_lastwO os r) at 2. apply skipn_app_at. Qed.
+
+Theorem split_windows (p : str) :
+  let v := volume_name_len W p in
+  split W p = (firstn v p ++ initwO W (skipn v p), lastwO W (skipn v p)).
+Proof.
+  cbv zeta. unfold split. rewrite (volume_name_length W p), (cut_windows p).
+  rewrite firstn_add, firstn_initw, <- skipn_skipn_own, skipn_initw. reflexivity.
+Qed.
+
+(* the file half has no separator, the two halves give the path back (both already in Properties/C13.v for
+   every OS type); the directory half keeps the volume *)
+Theorem split_windows_volume (p : str) :
+  firstn (volume_name_len W p) (fst (split W p)) = firstn (volume_name_len W p) p.
+Proof.
+  rewrite split_windows. cbn [fst]. pose proof (volume_name_len_le W p) as Hle.
+  set (v := volume_name_len W p) in *.
+  assert (Hl : length (firstn v p) = v) by (rewrite firstn_length; lia).
+  rewrite <- Hl at 1. apply firstn_app_at.
+Qed.
+
+(* Dir: the converted volume, then Clean of what lies between the volume and the last separator; a UNC or
+   device volume (longer than two bytes) alone is returned as it is *)
+Theorem dir_windows (p : str) :
+  let v := volume_name_len W p in
+  let d := clean W (initwO W (skipn v p)) in
+  dir W p = if str_eqb d [DOT] && Nat.ltb 2 v then volume_name W p else volume_name W p ++ d.
+Proof.
+  cbv zeta. unfold dir. rewrite (volume_name_length W p), (cut_windows p).
+  set (v := volume_name_len W p).
+  replace (v + length (initwO W (skipn v p)) - v) with (length (initwO W (skipn v p))) by lia.
+  rewrite firstn_initw. reflexivity.
+Qed.
+
+(* Base: trailing separators dropped, then the volume, then the last component; '\' when nothing is left *)
+Theorem base_windows (p : str) :
+  base W p =
+  match p with
+  | [] => [DOT]
+  | _ => let p1 := rev (strip_trailing_seps W (rev p)) in
+         let p2 := skipn (volume_name_len W p1) p1 in
+         match lastwO W p2 with [] => [BSLASH] | w => w end
+  end.
+Proof.
+  destruct p as [|c0 p0]; [reflexivity|]. unfold base. cbv zeta.
+  set (p1 := rev (strip_trailing_seps W (rev (c0 :: p0)))).
+  rewrite (volume_name_length W p1). set (p2 := skipn (volume_name_len W p1) p1).
+  pose proof (@cut_vol W [] p2) as Hc. cbn [app length plus] in Hc. rewrite Hc, skipn_initw. destruct (lastwO W p2); reflexivity.
+Qed.
+
+Lemma lastw_compsO os (p : str) : lastwO os p = last (compsO os p) [].
+Proof.
+  pose proof (initw_lastwO os p) as Hp. pose proof (@lastw_sepfreeO os p) as Hw.
+  assert (Hword : compsO os (lastwO os p) = [lastwO os p]) by (apply comps_wordO; exact Hw).
+  destruct (initw_shapeO os p) as [E|(a & s & E & Hs)]; rewrite E in Hp.
+  - cbn [app] in Hp. rewrite <- Hp at 2. rewrite Hword. reflexivity.
+  - rewrite <- Hp at 2. rewrite <- app_assoc. cbn [app]. rewrite (comps_app_sepO' os s a _ Hs), Hword.
+    symmetry. apply last_last.
+Qed.
+
+(* "C:\a\b\" , "\\h\s\x" , "C:" *)
+Example split_dir_base_windows_examples :
+  split W [67;58;92;97;92;98]%N = ([67;58;92;97;92]%N, [98]%N)
+  /\ dir W [67;58;47;97;47;98;47]%N = [67;58;92;97;92;98]%N
+  /\ base W [67;58;92;97;92;98;92]%N = [98]%N
+  /\ dir W [92;92;104;92;115;92;120]%N = [92;92;104;92;115;92]%N
+  /\ base W [92;92;104;92;115;92;120]%N = [120]%N
+  /\ dir W [92;92;104;92;115]%N = [92;92;104;92;115]%N
+  /\ base W [67;58]%N = [92]%N /\ dir W [67;58]%N = [67;58;46]%N.
+Proof. vm_compute. repeat split. Qed.
